@@ -30,6 +30,13 @@ pub fn generate(run_seed: u64) -> Scenario {
 
 /// (component name, sha256 of its canonical bytes) for every deterministic output of the session
 pub fn outputs<S: Scheme>(scn: &Scenario, sched: &Sched, log: &EventLog) -> Result<Vec<(String, String)>, String> {
+    outputs_ext::<S>(scn, sched, log, false)
+}
+
+/// `with_faults`: also record the verifier's exact decision (accept / false / err / abort) on proofs
+/// with one and with two injected defects - "all verification decisions" includes rejections, and
+/// which of two defects a data-parallel verifier trips over first must not depend on the schedule
+pub fn outputs_ext<S: Scheme>(scn: &Scenario, sched: &Sched, log: &EventLog, with_faults: bool) -> Result<Vec<(String, String)>, String> {
     let mut s2 = scn.clone();
     s2.sched = sched.clone();
     let sha = |b: &[u8]| hex(&Sha256::digest(b)[..16]);
@@ -56,6 +63,9 @@ pub fn outputs<S: Scheme>(scn: &Scenario, sched: &Sched, log: &EventLog) -> Resu
             Outcome::Ok(claim) => {
                 if !hyrax {
                     out.push((format!("proof:op{i}"), sha(&claim.proof_bytes())));
+                }
+                if with_faults {
+                    faulted_decisions::<S>(scn, &mut sess, &claim, i, &mut out);
                 }
                 let (d, _) = sess.verify(&claim, i as u64);
                 out.push((format!("decision:op{i}"), d.name().to_string()));
@@ -97,7 +107,7 @@ pub fn run<S: Scheme>(scn: &Scenario, log: &EventLog) -> RunResult {
     let quiet = EventLog::new(false);
     // reference execution: identity schedule, one thread
     let ident = Sched { rayon_seed: 0, threads: 1, identity: true };
-    let base = match outputs::<S>(scn, &ident, log) {
+    let base = match outputs_ext::<S>(scn, &ident, log, true) {
         Ok(b) => b,
         Err(e) => {
             res.stats.probe("vacuous:session-failed");
@@ -117,7 +127,7 @@ pub fn run<S: Scheme>(scn: &Scenario, log: &EventLog) -> RunResult {
     scheds.push(again);
     let mut last: Option<Vec<(String, String)>> = None;
     for (k, sc) in scheds.iter().enumerate() {
-        let got = match outputs::<S>(scn, sc, &quiet) {
+        let got = match outputs_ext::<S>(scn, sc, &quiet, true) {
             Ok(g) => g,
             Err(e) => {
                 res.violations.push(viol(scn, "cross-schedule", "schedule", "session", format!("session that runs under the identity schedule fails under schedule seed={} threads={}: {e}", sc.rayon_seed, sc.threads)));
@@ -159,5 +169,52 @@ pub fn line<S: Scheme>(scn: &Scenario) -> String {
     match outputs::<S>(scn, &sc, &quiet) {
         Ok(parts) => format!("{} {}", digest_of(&parts), parts.iter().map(|(k, v)| format!("{k}={v}")).collect::<Vec<_>>().join(",")),
         Err(e) => format!("ERR {e}"),
+    }
+}
+
+/// decisions on singly and doubly defective proofs of one operation (deterministic in the scenario)
+fn faulted_decisions<S: Scheme>(scn: &Scenario, sess: &mut Sess<S>, claim: &Claim<S>, i: usize, out: &mut Vec<(String, String)>) {
+    let pick = |n: usize, k: u64| -> usize { (mix64(scn.seed, "c18-fault", 31 * i as u64 + k) % n.max(1) as u64) as usize };
+    let with_proof = |c: &Claim<S>, p: Proof<S>| -> Claim<S> {
+        let mut c2 = c.clone();
+        match &mut c2 {
+            Claim::Open { proof, .. } => *proof = p,
+            Claim::Batch { proof, .. } => {
+                let mut l: Vec<Proof<S>> = proof.clone().into();
+                if !l.is_empty() { l[0] = p; }
+                *proof = l.into();
+            }
+            Claim::Lc { proof, .. } => {
+                let mut l: Vec<Proof<S>> = proof.proof.clone().into();
+                if !l.is_empty() { l[0] = p; }
+                proof.proof = l.into();
+            }
+        }
+        c2
+    };
+    let first: Option<Proof<S>> = match claim {
+        Claim::Open { proof, .. } => Some(proof.clone()),
+        Claim::Batch { proof, .. } => { let l: Vec<Proof<S>> = proof.clone().into(); l.into_iter().next() }
+        Claim::Lc { proof, .. } => { let l: Vec<Proof<S>> = proof.proof.clone().into(); l.into_iter().next() }
+    };
+    let Some(p0) = first else { return };
+    let v1 = S::proof_variants(&p0, mix64(scn.seed, "c18-v1", i as u64));
+    if v1.is_empty() {
+        return;
+    }
+    for k in 0..4u64 {
+        let (n1, p1) = &v1[pick(v1.len(), k)];
+        let (d, _) = sess.verify_scratch(&with_proof(claim, p1.clone()), 18_000 + k);
+        out.push((format!("decision:op{i}:defect[{n1}]"), d.name().to_string()));
+        // the surgery helpers assume a well-shaped proof; a first defect may have changed the shape
+        let v2 = match step(|| Ok::<_, String>(S::proof_variants(p1, mix64(scn.seed, "c18-v2", 7 * i as u64 + k)))) {
+            Outcome::Ok(v) => v,
+            _ => vec![],
+        };
+        if !v2.is_empty() {
+            let (n2, p2) = &v2[pick(v2.len(), 100 + k)];
+            let (d, _) = sess.verify_scratch(&with_proof(claim, p2.clone()), 18_100 + k);
+            out.push((format!("decision:op{i}:defects[{n1}+{n2}]"), d.name().to_string()));
+        }
     }
 }
